@@ -277,6 +277,138 @@ fn gen_composite_case(r: &mut Rng, lat: bool) -> Vec<(String, String)> {
     out
 }
 
+/// Grazing pass / near miss against a composite (Compound / TriMesh / Polyline, or a height field when `terrain`), with
+/// `target_distance > 0`: in the composite's local frame the moving body's box stays a gap `g ∈ (0, target]` (or just above
+/// the target) away from the box of one chosen part along one coordinate axis `k`, so that the boxes never overlap and only
+/// the target-distance inflation of the broad phase lets the part be looked at.  The body's extreme point towards the part
+/// passes exactly over the part's extreme point, hence the true distance reaches exactly `g` at the pass time:
+///   * tangential pass (velocity has no component along `k`), `max_time_of_impact` around / beyond the pass time;
+///   * oblique / head-on approach whose interval ends at the pass point (the hit is due although the boxes would only
+///     meet after `max_time_of_impact`);
+///   * start at the pass point (already within the target at t = 0) moving tangentially, receding, or not at all.
+/// The chosen part is the composite's outermost one along `±k` (then the whole hierarchy is missed) or a random one
+/// (then only a leaf / inner node is).  Judged by the e2e distance-sample oracle and the reduction over the parts.
+fn gen_graze_case(r: &mut Rng, lat: bool, terrain: bool) -> Vec<(String, String)> {
+    let (sc, gc, bsz): (String, Box<dyn Shape>, f64) = if terrain {
+        let hf = gen_hf(r, lat); let g = mk(&hf.tok);
+        let cwmin = hf.cw.iter().take(hf.haxes.len()).cloned().fold(f64::MAX, f64::min);
+        (hf.tok, g, cwmin * if lat { 0.5 } else { r.uniform(0.3, 0.9) })
+    } else { let (tok, _, _) = gen_composite(r, lat); let g = mk(&tok); (tok, g, if lat { 1.0 } else { r.uniform(0.5, 1.5) }) };
+    let cparts = parts(&*gc);
+    if cparts.is_empty() { return Vec::new(); }
+    // the axis along which the boxes stay apart, and the side of the part on which the body passes
+    let k = if terrain && r.below(3) != 0 { 1 } else { r.below(DIM as u64) as usize };
+    let side = if terrain && k == 1 { if r.below(8) == 0 { -1.0 } else { 1.0 } } else if r.bool() { 1.0 } else { -1.0 };
+    let ek = axis(k, side);
+    let boxes: Vec<px::bounding_volume::Aabb> = cparts.iter().map(|(m, g)| g.compute_aabb(m)).collect();
+    let ext = |b: &px::bounding_volume::Aabb| if side > 0.0 { b.maxs[k] } else { -b.mins[k] };
+    let pi = if r.below(5) < 3 { let mut best = 0; for i in 1..boxes.len() { if ext(&boxes[i]) > ext(&boxes[best]) { best = i; } } best }
+             else { r.below(boxes.len() as u64) as usize };
+    let (pm, pg) = &cparts[pi];
+    let pstar = match pg.as_support_map() { Some(sm) => sm.support_point(pm, &ek), None => return Vec::new() };
+    // the moving body: centred ball / cuboid / capsule, or a convex shape far off its own origin; own rotation or none
+    let target = if lat { *r.pick(&[0.125, 0.25, 0.5]) } else { r.uniform(0.05, 0.6) };
+    let gap = target * *r.pick(&[0.25, 0.5, 0.75, 0.9375, 0.5, 0.75, 1.25]);
+    let (sb, _) = if r.below(3) != 0 { gen_small_body(r, lat, bsz) }
+                  else { let off = gen_unit(r, lat) * if lat { *r.pick(&[2.0, 4.0]) } else { r.uniform(1.5, 5.0) }; gen_gjk_shape(r, lat, &off) };
+    let gb = mk(&sb);
+    let mut q = if r.below(3) == 0 { Iso::identity() } else { dx::gen_iso(r, lat, 1.0) };
+    q.translation.vector = V::zeros();
+    let bb = gb.compute_aabb(&q);
+    let sp = match gb.as_support_map() { Some(sm) => sm.support_point(&q, &(-ek)), None => return Vec::new() };
+    let radc = { let s = gc.compute_local_bounding_sphere(); s.center().coords.norm() + s.radius() };
+    let radb = { let s = gb.compute_local_bounding_sphere(); s.center().coords.norm() + s.radius() };
+    // translation of the body (composite's local frame) at the pass point
+    let mut tp = pstar.coords - sp.coords;
+    tp[k] = if side > 0.0 { boxes[pi].maxs[k] + gap - bb.mins[k] } else { boxes[pi].mins[k] - gap - bb.maxs[k] };
+    // a direction with no component along k
+    let sgn = |r: &mut Rng| if r.bool() { 1.0 } else { -1.0 };
+    let dperp: V = if DIM == 2 { axis(k + 1, sgn(r)) } else {
+        let (a0, a1) = if r.bool() { ((k + 1) % 3, (k + 2) % 3) } else { ((k + 2) % 3, (k + 1) % 3) };
+        match r.below(4) {
+            0 => axis(a0, sgn(r)),
+            1 => axis(a0, sgn(r)) + axis(a1, sgn(r)),
+            2 => axis(a0, sgn(r)) + axis(a1, sgn(r) * if lat { 0.25 } else { r.uniform(0.02, 0.5) }),
+            _ => axis(a0, sgn(r) * r.uniform(0.2, 1.0)) + axis(a1, sgn(r) * r.uniform(0.2, 1.0)),
+        }
+    };
+    let speed = if lat { *r.pick(&[0.5, 1.0, 4.0]) } else { r.logu(0.2, 20.0) };
+    let lead = (radc + radb) * if lat { *r.pick(&[1.5, 2.0]) } else { r.uniform(1.2, 2.5) };
+    let (d, t0, max_toi): (V, V, f64) = match r.below(10) {
+        0..=5 => { let d = dperp * speed; let t_pass = lead / d.norm();
+                   (d, tp - d * t_pass, t_pass * *r.pick(&[2.0, 4.0, 1.5, 1.0 + 1.0 / 64.0, 8.0])) }
+        6 | 7 => { let d = (dperp * *r.pick(&[0.0, 0.5, 1.0, 2.0]) - ek * if lat { *r.pick(&[0.5, 1.0]) } else { r.uniform(0.2, 1.5) }) * speed;
+                   let t_pass = lead / d.norm();
+                   (d, tp - d * t_pass, t_pass * *r.pick(&[1.0, 1.0 + 1.0 / 64.0])) }
+        8 => { let d = (dperp + ek * *r.pick(&[0.0, 0.0, 0.25, 1.0])) * speed; (d, tp, lead / d.norm() * *r.pick(&[0.25, 1.0, 4.0])) }
+        _ => (V::zeros(), tp, if lat { *r.pick(&[0.5, 1.0, 4.0]) } else { r.logu(0.1, 50.0) }),
+    };
+    // common world pose of the scene; the relative velocity is split between the two bodies
+    let m = dx::gen_iso(r, lat, 5.0);
+    let pos_c = m;
+    let mut ql = q; ql.translation.vector = t0;
+    let pos_b = m * ql;
+    let w = if r.bool() { V::zeros() } else { dx::gen_v(r, lat, 2.0) };
+    let (vel_c, vel_b) = (w, w + m * d);
+    let o = ShapeCastOptions { max_time_of_impact: max_toi, target_distance: target, stop_at_penetration: r.below(4) != 0, compute_impact_geometry_on_penetration: r.bool() };
+    let args = if r.bool() { format!("{} {} {} {} {} {} {}", dx::hiso(&pos_c), dx::hv(&vel_c), sc, dx::hiso(&pos_b), dx::hv(&vel_b), sb, hopts(&o)) }
+               else { format!("{} {} {} {} {} {} {}", dx::hiso(&pos_b), dx::hv(&vel_b), sb, dx::hiso(&pos_c), dx::hv(&vel_c), sc, hopts(&o)) };
+    vec![("e2e".to_string(), args)]
+}
+
+/// one BVH box against a posed ball / cuboid for the broad-phase test `cull`: the boxes are placed a chosen signed gap apart
+/// along one axis at a "pass" point (overlapping, touching, inside / exactly at / just beyond the target distance, far),
+/// aligned or corner-to-corner on the other axes; velocities tangential (exactly zero along the gap axis), approaching with
+/// the interval ending at the pass point, starting at the pass point, zero, axis-aligned with signed zeros, random;
+/// `max_time_of_impact` at / around the pass time or unbounded.
+fn gen_cull_case(r: &mut Rng, lat: bool) -> (String, String) {
+    let c = dx::gen_p(r, lat, 10.0);
+    let mut h = if lat { gen_he(r, true) } else { V::from_fn(|_, _| r.logu(1e-2, 20.0)) };
+    if r.below(6) == 0 { h[r.below(DIM as u64) as usize] = 0.0; }                 // flat box (axis-aligned segment / face)
+    let (mins, maxs) = (c - h, c + h);
+    let sb = if r.bool() { hshape_ball(if lat { r.pos_extent(true) } else { r.logu(1e-2, 20.0) }) }
+             else { let he = if lat { gen_he(r, true) } else { V::from_fn(|_, _| r.logu(1e-2, 20.0)) }; hshape_cuboid(&he) };
+    let g2 = mk(&sb);
+    let mut q = dx::gen_iso(r, lat, 1.0); q.translation.vector = V::zeros();
+    let hb = g2.compute_aabb(&q).half_extents();
+    let target = if r.below(4) == 0 { 0.0 } else if lat { *r.pick(&[0.125, 0.25, 0.5, 1.0, 2.0]) } else { r.logu(1e-3, 10.0) };
+    let k = r.below(DIM as u64) as usize;
+    let side = if r.bool() { 1.0 } else { -1.0 };
+    let ek = axis(k, side);
+    let big = if lat { 4.0 } else { r.uniform(1.0, 30.0) };
+    let gap = match r.below(9) {
+        0 => -(h[k] + hb[k]) * 0.5, 1 => 0.0, 2 | 3 => target * 0.5, 4 => target, 5 => target * 1.25 + if target == 0.0 { 0.25 } else { 0.0 },
+        6 => target * (1.0 - 1.0 / 1048576.0), 7 => target * (1.0 + 1.0 / 1048576.0) + if target == 0.0 { 1.0e-9 } else { 0.0 }, _ => target + big };
+    // centre of box 2 at the pass point
+    let mut tp = c.coords;
+    for j in 0..DIM {
+        let reach = h[j] + hb[j];
+        tp[j] += if j == k { side * (reach + gap) } else { match r.below(4) {
+            0 => 0.0, 1 => reach * if r.bool() { 1.0 } else { -1.0 },                     // aligned / boxes exactly touching on that axis
+            2 => (reach + target) * if r.bool() { 1.0 } else { -1.0 },                  // exactly at the target on that axis too (corner tie)
+            _ => reach * if lat { *r.pick(&[-0.5, 0.25, 0.75]) } else { r.uniform(-0.95, 0.95) } } };
+    }
+    let sgn = |r: &mut Rng| if r.bool() { 1.0 } else { -1.0 };
+    let mut dperp = V::zeros();
+    for j in 0..DIM { if j != k { dperp[j] = match r.below(4) { 0 => 0.0, 1 => -0.0, 2 => sgn(r), _ => if lat { r.lattice(8, 2) } else { r.uniform(-1.0, 1.0) } }; } }
+    if dperp.norm() == 0.0 && r.below(3) != 0 { dperp[(k + 1) % DIM] = sgn(r); }
+    let speed = if lat { *r.pick(&[0.25, 1.0, 4.0]) } else { r.logu(1e-2, 1e2) };
+    let lead = if lat { *r.pick(&[2.0, 8.0, 32.0]) } else { r.uniform(0.5, 60.0) };
+    let (d, t0, max_toi): (V, V, f64) = match r.below(12) {
+        0..=3 => { let d = dperp * speed; let n = d.norm(); if n == 0.0 { (d, tp, lead) } else { let tpass = lead / n;
+                   (d, tp - d * tpass, *r.pick(&[tpass, tpass * 2.0, tpass * 0.5, f64::MAX, tpass * 64.0])) } }
+        4..=6 => { let d = (dperp * *r.pick(&[0.0, 0.5, 1.0]) - ek * if lat { *r.pick(&[0.5, 1.0]) } else { r.uniform(0.1, 2.0) }) * speed;
+                   let tpass = lead / d.norm();
+                   (d, tp - d * tpass, *r.pick(&[tpass, tpass * (1.0 + 1.0 / 64.0), tpass * 0.75, tpass * 4.0, f64::MAX])) }
+        7 | 8 => { let d = (dperp + ek * *r.pick(&[0.0, -0.0, 0.25, 1.0])) * speed; (d, tp, if r.below(4) == 0 { f64::MAX } else { lead }) }
+        9 => (V::zeros(), tp, lead),
+        10 => { let d = axis(r.below(DIM as u64) as usize, sgn(r) * speed); (d, tp - d * lead, *r.pick(&[lead, lead * 2.0, lead * 0.5, f64::MAX])) }
+        _ => { let d = dx::gen_v(r, lat, if lat { 1.0 } else { 20.0 }); (d, tp - d * lead, *r.pick(&[lead, lead * 2.0, f64::MAX])) }
+    };
+    q.translation.vector = t0;
+    ("cull".into(), format!("{} {} {} {} {} {} {}", dx::hiso(&q), dx::hv(&d), sb, hx(max_toi), hx(target), dx::hp(&P::from(mins)), dx::hp(&P::from(maxs))))
+}
+
 pub fn gen(r: &mut Rng, thorough: bool) -> Vec<(String, String)> {
     let n = if thorough { 4000 } else { 400 };
     let mut v: Vec<(String, String)> = Vec::new();
@@ -417,5 +549,18 @@ pub fn gen(r: &mut Rng, thorough: bool) -> Vec<(String, String)> {
         v.extend(gen_hf_case(r, lat));
         v.extend(gen_composite_case(r, lat));
     }
+    // ---- second follow-up: grazing passes within the target distance (boxes never overlap), composites and terrains.
+    // Drawn from a generator forked off the main one, so that every earlier family (here and in the other dimension, which
+    // continues the main stream) keeps producing exactly the cases it produced before.
+    let mut rg = Rng(r.0.rotate_left(17) ^ 0x6A09E667F3BCC909 ^ (DIM as u64));
+    let r = &mut rg;
+    for it in 0..m {
+        let lat = it % 2 == 0;
+        v.extend(gen_graze_case(r, lat, false));
+        if it % 2 == 1 || (it / 2) % 2 == 0 { v.extend(gen_graze_case(r, lat, true)); }
+        if it % 3 == 0 { v.extend(gen_graze_case(r, !lat, false)); }
+    }
+    // ---- the broad-phase box test of the composite cast, on explicit boxes (bit-exact model + exact oracle)
+    for it in 0..(if thorough { 12000 } else { 1200 }) { v.push(gen_cull_case(r, it % 2 == 0)); }
     v
 }
